@@ -187,7 +187,11 @@ extern "C" void h_hexdump(void)
 {
   byte body[DUMP_BYTES];
   for (unsigned i = 0; i < DUMP_BYTES; ++i) body[i] = vf_nondet_u8();
+#ifdef DUMP_N
+  const unsigned n = DUMP_N;       // the body length is a constant per query so that the expected event positions are concrete
+#else
   const unsigned n = vf_nondet_u8(); vf_assume(n <= DUMP_BYTES);
+#endif
   std::cout << std::hex << std::uppercase;                       // as `dump` does before calling
   const unsigned before_flags = std::cout.flags();
   const unsigned first = vfio::nev;
@@ -227,7 +231,8 @@ extern "C" void h_hexdump(void)
         vf_assert(vfio::ev_kind[e] == vfio::K_CHAR && vfio::ev_val[e] == '\n', "end of row"); ++e;
       }
   vf_assert(vfio::nev == e, "nothing else is printed");
-  for (unsigned i = 0; i < vfio::MAXEV; ++i) if (i >= first && i < vfio::nev) vf_assert(vfio::ev_stream[i] == 1, "everything goes to the stream that was passed in");
+  { const unsigned k = vf_nondet_u8() % vfio::MAXEV;
+    if (k >= first && k < vfio::nev) vf_assert(vfio::ev_stream[k] == 1, "everything goes to the stream that was passed in"); }
   vf_observe(vfio::nev - first);
   if (n == 9) vf_witness("one full row and one row with a single byte");
   if (n == 0) vf_witness("empty file");
